@@ -96,8 +96,9 @@ CLAIMS["C09"] = dict(
          "original's map at the moment of the copy, overridden by the copy's own assignments (copies_bind_by_name; a `__setstate__` that rebuilds the "
          "value list in map insertion order: setstate_rebuild_counterexample).  The harness runs such systems of up to three live instances "
          "(evaluation continues on the copy and on the original, every instance judged after every operation), transient copy.copy / pickle probes, "
-         "a second model with the same names assigned other values in between, numbers as Python / numpy scalars and int / float arrays, and checks "
-         "that the caller's containers are neither modified nor held on to.",
+         "a second model with the same names assigned other values in between, numbers as Python / numpy scalars and int / float arrays, the caller "
+         "overwriting his container afterwards (the evaluations must not follow); a container written to by pygom is recorded as a side effect (tag), "
+         "only wrong evaluations are violations.",
     note="Trusted: Lean kernel + Mathlib; the harness (generator, printer, interpreter, the 40-line Python dict spec of the oracle). The setter variant "
          "(does a rejected assignment leave `_parameters`/`_paramValue` touched) is measured on the tree under test by a fixed probe and passed to the "
          "model; both variants are covered by theorems. Documented non-claims (stated as lemmas): a partial update on a never-set model binds the "
@@ -237,7 +238,8 @@ CLAIMS["C08"] = dict(
          "canaries the other instance's compile marks a just-modified model's evaluator up to date (shared_store_stale_counterexample). "
          "The harness runs histories over two interleaved instances with the same names (driver op canary2 = Canary.pstep), lets the freshly built "
          "reference evaluate before or after the instance under test (part of the case), calls every evaluator at a second point in every argument "
-         "form (list / tuple / ndarray, int / float dtype, numpy scalars) and re-compares every array returned at the end of each round.",
+         "form (list / tuple / ndarray, int / float dtype, numpy scalars; reference given the same arguments) and re-compares every array returned "
+         "at the end of each round.",
     note="The Lean model (Canary.sourceCfg) describes the tree WITH proposed_fixes/C08-add-ode-trip.diff and C08-decl-setters-refresh-sp.diff applied; "
          "until they are applied ./check C08 reports a VIOLATION on /repo (add_ode, late parameter / state declarations). "
          "Trusted: Lean kernel; harness generator/replay; pymodel route replay; lambda back-end only; 'fresh model' assigns 0 to a parameter "
